@@ -550,7 +550,7 @@ func c04Scenario(r *Rand) *Workload {
 	}}
 	kind := Pick(r, []string{"envelope-on-scalar", "envelope-on-array", "unfold-twice", "compose-on-alias", "dataquery-not-a-struct", "dataquery-alias",
 		"template-loop:include", "template-loop:includeIfExists", "template-loop:template", "veneer-chain", "veneer-chain", "veneer-chain",
-		"boundary-defaults", "boundary-defaults", "boundary-defaults", "incomplete-type", "incomplete-type", "incomplete-type"})
+		"boundary-defaults", "boundary-defaults", "boundary-defaults", "incomplete-type", "incomplete-type", "incomplete-type", "malformed-refs", "malformed-refs", "string-patterns", "string-patterns"})
 	if forcedScenario != "" {
 		kind = forcedScenario
 	}
@@ -607,6 +607,69 @@ func c04Scenario(r *Rand) *Workload {
 		w.Files["cfg/bnd_passes.yaml"] = y.String()
 		w.Converters = r.Bool()
 		w.Languages = GenLanguages(r, 1, 4)
+	case "malformed-refs":
+		// object and field references of the wrong arity or with empty segments, in every
+		// transformation that takes one: the loader has to answer with an error
+		w.Files["in/scn/schema.json"] = thing.RenderJSONSchema()
+		w.Inputs = []InputSpec{{Kind: "jsonschema", Path: "in/scn/schema.json", Package: "scn", Transformations: []string{"cfg/scn_passes.yaml"}}}
+		bad := []string{"scn.Thing", "scn", "", ".", "..", "scn..title", "scn.Thing.", ".Thing.title", "scn.Thing.title.extra", "scn.Thing.inner.x", "a.b.c.d.e", "scn.Thing.title", "scn.thing"}
+		ref := func() string { return yq(Pick(r, bad)) }
+		var y strings.Builder
+		y.WriteString("passes:\n")
+		for i, n := 0, 1+r.Intn(3); i < n; i++ {
+			switch r.Intn(12) {
+			case 0:
+				fmt.Fprintf(&y, "  - fields_set_required:\n      fields: [%s, %s]\n", ref(), ref())
+			case 1:
+				fmt.Fprintf(&y, "  - fields_set_not_required:\n      fields: [%s]\n", ref())
+			case 2:
+				fmt.Fprintf(&y, "  - fields_set_default:\n      defaults:\n        %s: 1\n", ref())
+			case 3:
+				fmt.Fprintf(&y, "  - omit_fields:\n      fields: [%s]\n", ref())
+			case 4:
+				fmt.Fprintf(&y, "  - omit:\n      objects: [%s]\n", ref())
+			case 5:
+				fmt.Fprintf(&y, "  - rename_object:\n      from: %s\n      to: Renamed\n", ref())
+			case 6:
+				fmt.Fprintf(&y, "  - retype_field:\n      field: %s\n      as:\n        kind: scalar\n        scalar: {scalar_kind: string}\n", ref())
+			case 7:
+				fmt.Fprintf(&y, "  - duplicate_object:\n      object: %s\n      as: %s\n", ref(), ref())
+			case 8:
+				fmt.Fprintf(&y, "  - replace_reference:\n      from: %s\n      to: %s\n", ref(), ref())
+			case 9:
+				fmt.Fprintf(&y, "  - hint_object:\n      object: %s\n      hints: {a: b}\n", ref())
+			case 10:
+				fmt.Fprintf(&y, "  - add_fields:\n      to: %s\n      fields:\n        - name: extra\n          type: {kind: scalar, scalar: {scalar_kind: string}}\n", ref())
+			default:
+				fmt.Fprintf(&y, "  - constant_to_enum:\n      objects: [%s]\n", ref())
+			}
+		}
+		w.Files["cfg/scn_passes.yaml"] = y.String()
+	case "string-patterns":
+		// `pattern` values that are valid regular expressions but not what the constant
+		// detection expects (lone anchors, one anchor only, empty, escapes), JSON Schema and OpenAPI
+		pats := []string{"^", "$", "^$", "", "^a", "a$", "^^", "$$", "^\\$", "\\", "^a|b$", "^(a)$", "^.$", "^ $", "^\\^$", "(", "^math$", "^$^$"}
+		props := map[string]any{}
+		for i, n := 0, 1+r.Intn(4); i < n; i++ {
+			f := map[string]any{"type": "string", "pattern": Pick(r, pats)}
+			if r.Chance(1, 4) {
+				f["default"] = Pick(r, []any{"x", "", 1})
+			}
+			props[fmt.Sprintf("p%d", i)] = f
+		}
+		if r.Bool() {
+			doc := map[string]any{"$schema": "http://json-schema.org/draft-07/schema#", "$ref": "#/definitions/Thing", "definitions": map[string]any{"Thing": map[string]any{"type": "object", "properties": props}, "Alias": map[string]any{"type": "string", "pattern": Pick(r, pats)}}}
+			b, _ := json.MarshalIndent(doc, "", " ")
+			w.Files["in/scn/schema.json"] = string(b)
+			w.Inputs = []InputSpec{{Kind: "jsonschema", Path: "in/scn/schema.json", Package: "scn"}}
+		} else {
+			doc := map[string]any{"openapi": "3.0.0", "info": map[string]any{"title": "scn", "version": "1"}, "paths": map[string]any{},
+				"components": map[string]any{"schemas": map[string]any{"Thing": map[string]any{"type": "object", "properties": props}, "Alias": map[string]any{"type": "string", "pattern": Pick(r, pats)}}}}
+			b, _ := json.MarshalIndent(doc, "", " ")
+			w.Files["in/scn/openapi.json"] = string(b)
+			w.Inputs = []InputSpec{{Kind: "openapi", Path: "in/scn/openapi.json", Package: "scn", NoValidate: r.Bool()}}
+		}
+		w.Languages = GenLanguages(r, 1, 3)
 	case "incomplete-type":
 		// a hand-written type (add_object, add_fields, retype_field) in which one entry of one
 		// type definition is missing: `kind: scalar` without its `scalar:` block, a map without
@@ -867,7 +930,7 @@ func init() {
 				if sr := r.Side("scenario-values"); sr.Chance(1, 16) && ctx.Opt["scenario"] == "" {
 					// the two scenarios about what a configuration file can carry (values of odd
 					// dynamic types, incomplete hand-written types) have many variants each
-					forcedScenario = Pick(sr, []string{"boundary-defaults", "incomplete-type", "incomplete-type"})
+					forcedScenario = Pick(sr, []string{"boundary-defaults", "incomplete-type", "incomplete-type", "malformed-refs", "string-patterns"})
 					w = c04Scenario(sr)
 					forcedScenario = ""
 				}
